@@ -80,6 +80,18 @@ def alphabet(rng, limited):
                 ops.append((f"rotateM-shared({rn})", lambda w, Rq=Rq: w.rotate(sh0, Rq, horner=False).ndarray))
                 ops.append((f"rotateH-shared-small-ws({rn})", lambda w, Rq=Rq: raises(lambda: w.rotate(sh0, Rq, workspace=np.zeros(5), horner=True))))
         if rn in ("generic", "pole-"):
+            # requests the documentation places out of range: whether they are rejected or served, they must leave the object as it was
+            # (a calculator that adapts itself to such a request is no longer the object the caller constructed)
+            big = spherical.Modes(helpers.random_weights(rng, -1, L + 2), spin_weight=-1, ell_min=0, ell_max=L + 2)
+            ops.append((f"evalH-modes-beyond-calculator({rn})", lambda w, Rq=Rq, big=big: raises(lambda: w.evaluate(big, Rq, horner=True))))
+            ops.append((f"evalM-modes-beyond-calculator({rn})", lambda w, Rq=Rq, big=big: raises(lambda: w.evaluate(big, Rq, horner=False))))
+            ops.append((f"sYlm-spin-beyond-mp_max({rn})", lambda w, Rq=Rq: raises(lambda: w.sYlm(w.mp_max + 1, Rq))))
+            ops.append((f"sYlm-wrong-out-size({rn})", lambda w, Rq=Rq: raises(lambda: w.sYlm(-1, Rq, out=np.zeros(3, dtype=complex)))))
+            if not limited:
+                big0 = spherical.Modes(helpers.random_weights(rng, 0, L + 1), spin_weight=0, ell_min=0, ell_max=L + 1)
+                ops.append((f"rotateH-modes-beyond-calculator({rn})", lambda w, Rq=Rq, big0=big0: raises(lambda: w.rotate(big0, Rq, horner=True))))
+                ops.append((f"rotateM-modes-beyond-calculator({rn})", lambda w, Rq=Rq, big0=big0: raises(lambda: w.rotate(big0, Rq, horner=False))))
+                ops.append((f"D-wrong-out-size({rn})", lambda w, Rq=Rq: raises(lambda: w.D(Rq, out=np.zeros(3, dtype=complex)))))
             # degenerate but legitimate requests: modes that contain no ell >= |s| (the zero function), an ell_max = 0 object
             ops.append((f"evalH-empty({rn})", lambda w, Rq=Rq: np.asarray(w.evaluate(spherical.Modes(np.zeros(4, dtype=complex), spin_weight=-3 if not limited else -1, ell_min=0, ell_max=1) if not limited else spherical.Modes(np.zeros(1, dtype=complex), spin_weight=0, ell_min=0, ell_max=0), Rq, horner=True))))
             ops.append((f"evalM-empty({rn})", lambda w, Rq=Rq: np.asarray(w.evaluate(spherical.Modes(np.zeros(4, dtype=complex), spin_weight=-3 if not limited else -1, ell_min=0, ell_max=1) if not limited else spherical.Modes(np.zeros(1, dtype=complex), spin_weight=0, ell_min=0, ell_max=0), Rq, horner=False))))
